@@ -128,6 +128,10 @@ def run(prop, tier, seed):
         return "%s: %s on record %s -> %s" % (c, d, ev["pre"], ev.get("post", ev.get("res", ev.get("exc"))))
     # recipes are not regenerable from a seed-free description; the replay file carries the trace itself
     run.validate("record-ops", "Trace_Record", traces, None, sigfn=sig, describe=describe)
+    if prop in ("C13", "C14"):
+        from .. import scenario
+        sc = scenario.run(rng, 20 if q else 200)
+        run.validate("scenario-records", "Trace_Record", sc["record"], None, sigfn=sig, describe=describe)
     return run
 
 
